@@ -24,14 +24,15 @@ type fuzzTarget struct {
 	name  string
 	fn    func([]byte) error
 	seeds func() [][]byte
+	quiet func([]byte) error // fn without the evidence bookkeeping
 }
 
 var fuzzTargets = []fuzzTarget{
-	{"FuzzFrames", targetFrames, framesSeeds},
-	{"FuzzRequest", targetRequest, requestSeeds},
-	{"FuzzResponse", targetResponse, responseSeeds},
-	{"FuzzOptions", targetOptions, optionsSeeds},
-	{"FuzzDeflate", targetDeflate, deflateSeeds},
+	{"FuzzFrames", targetFrames, framesSeeds, func(d []byte) error { return quietly(func() error { return targetFrames(d) }) }},
+	{"FuzzRequest", targetRequest, requestSeeds, func(d []byte) error { return quietly(func() error { return targetRequest(d) }) }},
+	{"FuzzResponse", targetResponse, responseSeeds, func(d []byte) error { return quietly(func() error { return targetResponse(d) }) }},
+	{"FuzzOptions", targetOptions, optionsSeeds, func(d []byte) error { return quietly(func() error { return targetOptions(d) }) }},
+	{"FuzzDeflate", targetDeflate, deflateSeeds, func(d []byte) error { return quietly(func() error { return targetDeflate(d) }) }},
 }
 
 func cat(parts ...[]byte) []byte { return bytes.Join(parts, nil) }
@@ -103,7 +104,7 @@ func framesSeeds() [][]byte {
 			}
 		}
 	}
-	// continue mode (entry byte + 6): a text message ending inside a multi-byte sequence, then control
+	// continue mode (entry byte + contBit): a text message ending inside a multi-byte sequence, then control
 	// frames with a payload and further messages, the caller going on after ErrInvalidUTF8
 	for _, masked := range []bool{false, true} {
 		a := byte(1 | 4)
@@ -113,7 +114,7 @@ func framesSeeds() [][]byte {
 		stream := cat(fr(ref.OpText, true, masked, 0, strings.Repeat("a", 300)+"\xe2\x82"), fr(ref.OpPing, true, masked, 0, "0123456789"),
 			fr(ref.OpText, true, masked, 0, "ok"), fr(ref.OpClose, true, masked, 0, "\x03\xe8"))
 		for _, ab := range [][2]byte{{a | 0x80, 0x00}, {a, 0x00}, {a, 0x10}, {a, 0x01}} {
-			out = append(out, cat([]byte{2 + 6, ab[0], ab[1], 0}, stream))
+			out = append(out, cat([]byte{2 + contBit, ab[0], ab[1], 0}, stream))
 		}
 	}
 	// many control frames / empty fragments between two fragments (stack use must not follow their number)
@@ -247,7 +248,7 @@ func deflateSeeds() [][]byte {
 	}
 	msgs = append(msgs, deflateConsts()...)
 	var out [][]byte
-	for e := 0; e < 4; e++ {
+	for _, e := range []int{0, 1, 2, 3, 5} {
 		for _, m := range msgs {
 			out = append(out, cat([]byte{defCtl0(e, 0), 0}, m), cat([]byte{defCtl0(e, 0x20), 3}, m))
 		}
@@ -321,7 +322,7 @@ func parseCorpusFile(path string) ([]byte, error) {
 // seed lists.
 func TestCorpus(t *testing.T) {
 	root := corpusRoot()
-	total, idx := 0, 0
+	total, idx, prefixes := 0, 0, 0
 	for _, ft := range fuzzTargets {
 		files, _ := filepath.Glob(filepath.Join(root, ft.name, "*"))
 		sort.Strings(files)
@@ -345,6 +346,12 @@ func TestCorpus(t *testing.T) {
 				hx.Failf(t, map[string]interface{}{"target": ft.name, "file": p, "input_hex": fmt.Sprintf("%x", data)}, "%s on committed input %s: %v", ft.name, filepath.Base(p), err)
 				return
 			}
+			if k, err := runPrefixes(ft, data); err != nil {
+				hx.Failf(t, map[string]interface{}{"target": ft.name, "file": p, "prefix_len": k, "input_hex": fmt.Sprintf("%x", data[:k])}, "%s on the first %d bytes of committed input %s: %v", ft.name, k, filepath.Base(p), err)
+				return
+			} else {
+				prefixes += k
+			}
 		}
 		for i, data := range ft.seeds() {
 			idx++
@@ -357,9 +364,17 @@ func TestCorpus(t *testing.T) {
 				hx.Failf(t, map[string]interface{}{"target": ft.name, "seed": i, "input_hex": fmt.Sprintf("%x", data)}, "%s on built-in seed %d: %v", ft.name, i, err)
 				return
 			}
+			if k, err := runPrefixes(ft, data); err != nil {
+				hx.Failf(t, map[string]interface{}{"target": ft.name, "seed": i, "prefix_len": k, "input_hex": fmt.Sprintf("%x", data[:k])}, "%s on the first %d bytes of built-in seed %d: %v", ft.name, k, i, err)
+				return
+			} else {
+				prefixes += k
+			}
 		}
 	}
+	hx.EvalN(prefixes)
 	hx.Part("committed regression inputs + built-in seeds", int64(total), true)
+	hx.Part("proper prefixes of those inputs (streams that end anywhere, the empty input included)", int64(prefixes), true)
 }
 
 // TestWriteSeedFiles (re)creates the committed seed files from the built-in
@@ -392,4 +407,24 @@ func TestWriteSeedFiles(t *testing.T) {
 		}
 		t.Logf("%s: %d files", ft.name, n)
 	}
+}
+
+// runPrefixes runs the target on the proper prefixes of data — a stream may
+// end anywhere, also before its first byte. All of them in the thorough tier
+// and for inputs up to 192 bytes; for longer inputs in the quick tier the
+// first 96, the last 48 and every 13th in between. Without the evidence
+// bookkeeping of the full inputs. It returns the number of prefixes run, or
+// the length of the failing prefix and the error.
+func runPrefixes(ft fuzzTarget, data []byte) (int, error) {
+	n := 0
+	for k := 0; k < len(data); k++ {
+		if !hx.Thorough() && len(data) > 192 && k >= 96 && k < len(data)-48 && k%13 != 0 {
+			continue
+		}
+		if err := ft.quiet(data[:k]); err != nil {
+			return k, err
+		}
+		n++
+	}
+	return n, nil
 }
